@@ -180,10 +180,33 @@ func localAddr(v ssa.Value) bool {
 // inlineHelpers returns a walker inline policy: closures always; in-module static callees of the given
 // packages (nil = any module package) unless `keep` says the rule wants to see the call as an event, or
 // the callee is inert. `maxBlocks` bounds the size of what is entered.
+// stdTransparent: small pure higher-order helpers of the standard library that are walked from their own source
+// (their behaviour is their code: sort.Search is a binary search whatever the predicate does).
+func stdTransparent(f *ssa.Function) bool {
+	if f == nil || f.Blocks == nil {
+		return false
+	}
+	g := f
+	if f.Origin() != nil {
+		g = f.Origin()
+	}
+	if g.Pkg == nil || g.Parent() != nil {
+		return false
+	}
+	switch g.Pkg.Pkg.Path() + "." + g.Name() {
+	case "sort.Search", "slices.BinarySearchFunc", "slices.IndexFunc", "slices.ContainsFunc", "slices.Index", "slices.Contains":
+		return true
+	}
+	return false
+}
+
 func inlineHelpers(pkgs []*ssa.Package, keep func(f *ssa.Function) bool) func(f *ssa.Function, d int) bool {
 	return func(f *ssa.Function, d int) bool {
 		if f.Parent() != nil {
 			return keep == nil || !keep(f)
+		}
+		if stdTransparent(f) {
+			return true
 		}
 		if !inModule(f) || f.Blocks == nil {
 			return false
